@@ -106,6 +106,13 @@ class SVGPathPen(DecomposingPen):
 
     def qCurveTo(self, *points):
         # handle TrueType quadratic splines with implicit on-curve mid-points
+        if points[-1] is None:
+            # closed contour without any on-curve point: start at the implied
+            # mid-point between its last and first off-curve points
+            (x0, y0), (x1, y1) = points[-2], points[0]
+            start = (0.5 * (x0 + x1), 0.5 * (y0 + y1))
+            self.moveTo(start)
+            points = points[:-1] + (start,)
         for control_pt, end_pt in pathops.decompose_quadratic_segment(points):
             self.path.Q(*control_pt, *end_pt)
 
